@@ -215,6 +215,11 @@ def box_set(ctx):
         st, calls, at, bx = run(sc)
         ok = st == 'ok' and calls == [{'a': sp.Symbol('A')}] and equal(np.asarray(at.view['pos'], dtype=object), P, deep=False)
         ctx.ob('BOX-SET', loc, 'scale=%s: only the cell changes; absolute positions are untouched' % ('False' if sc is False else 'not given'), bool(ok), str(calls), node=fn, key='noscale %s' % sc)
+    # a numpy boolean (system.pbc[0], mask.all()) is truthy but is not the object True: it is either refused, or it means scale=True -- never "cell changed, scale ignored"
+    st, calls, at, bx = run(np.bool_(True))
+    ok = (st == 'raise' and not calls) or (st == 'ok' and equal(np.asarray(at.view['pos'], dtype=object), want))
+    ctx.ob('BOX-SET', loc, 'scale given as a numpy True is refused, or holds the box-relative positions like True (it is never accepted and then ignored)', bool(ok),
+           'accepted; positions %s' % ('left absolute' if st == 'ok' else ''), node=fn, key='numpy bool scale')
     verd = [(v, run(v)[0], len(run(v)[1])) for v in (1, 'yes', None)]
     ctx.ob('BOX-SET', loc, 'a non-boolean scale is refused before anything is changed', all(x[1] == 'raise' and x[2] == 0 for x in verd), str(verd), node=fn)
 
